@@ -300,6 +300,19 @@ func decodeEmitted(m map[string]any, opIdx int) (emitted, error) {
 	return e, nil
 }
 
+// cutoff is the time handed to a cleanup call.  When the history asks for the boundary right before this very call
+// (everything that has arrived so far is older than the cut-off), every later instant is an equivalent cut-off for what
+// the properties state - nothing else can be younger - so half of those calls get a cut-off 13 hours in the future
+// instead: the cleanup the daemon would make after half a day without traffic.  Model and oracle see the same history
+// (cut = own index); a correlator that also ages CORRELATED sessions, or anything else, by wall-clock distance does not.
+func (r *runner) cutoff(i int, o HOp) time.Time {
+	t := r.bounds[o.Cut]
+	if o.Cut == i && (i+len(r.h.Ops))%2 == 0 {
+		t = t.Add(13 * time.Hour)
+	}
+	return t
+}
+
 func (r *runner) run() runResult {
 	var res runResult
 	// every call into the correlator, and every dump of its state (which takes the maps' locks), runs under the
@@ -332,9 +345,9 @@ func (r *runner) run() runResult {
 		case "audit":
 			e = r.tr.AuditdEvent(aev)
 		case "clean_sess":
-			r.tr.DeleteUsersWithoutLoginsBefore(r.bounds[o.Cut])
+			r.tr.DeleteUsersWithoutLoginsBefore(r.cutoff(i, o))
 		case "clean_logins":
-			r.tr.DeleteRemoteUserLoginsBefore(r.bounds[o.Cut])
+			r.tr.DeleteRemoteUserLoginsBefore(r.cutoff(i, o))
 		}
 		r.wd.Leave()
 		r.bounds = append(r.bounds, tick())
